@@ -205,6 +205,9 @@ var counters = ev.Register(&ev.P[dayCase]{
 		if has(l.GetFestivals(), "除夕") || (l.GetDay() >= 28 && (l.GetMonth() == 12 || l.GetMonth() == -12 || l.GetMonth() == 11)) {
 			ls, nt = append(ls, "nearLunarYearEnd"), true
 		}
+		if lp := calendar.NewLunarYear(l.GetYear()).GetLeapMonth(); lp == 12 || lp == 11 {
+			ls = append(ls, "leap12Year")
+		}
 		if w.fu != "" {
 			ls = append(ls, "inFu")
 		}
@@ -214,7 +217,7 @@ var counters = ev.Register(&ev.P[dayCase]{
 		return ls, nt
 	},
 	Disjoint: false,
-	Require:  []string{"shuJiuEdge", "shuJiuOutsideEdge", "fuEdge", "solsticeIsGeng", "middle10", "middle20", "pentadEdge", "movableFestival", "nearLunarYearEnd"},
+	Require:  []string{"leap12Year", "shuJiuEdge", "shuJiuOutsideEdge", "fuEdge", "solsticeIsGeng", "middle10", "middle20", "pentadEdge", "movableFestival", "nearLunarYearEnd"},
 })
 
 func TestC13(t *testing.T) {
@@ -251,7 +254,18 @@ func TestC13(t *testing.T) {
 		case 4:
 			j = jd(ts[8]) + rapid.IntRange(-2, 1).Draw(t, "qingming")
 		case 5:
-			j = gen.NewYearJDN(y) + rapid.IntRange(-3, 1).Draw(t, "ny")
+			if rapid.Bool().Draw(t, "monthEnd") && y < 9998 {
+				// the last days of the last three months of the lunar year (a leap 12th month may follow month 12)
+				ly := calendar.NewLunarYear(y)
+				var ms []*calendar.LunarMonth
+				for e := ly.GetMonthsInYear().Front(); e != nil; e = e.Next() {
+					ms = append(ms, e.Value.(*calendar.LunarMonth))
+				}
+				m := ms[len(ms)-1-rapid.IntRange(0, 2).Draw(t, "lastMonths")]
+				j = int(m.GetFirstJulianDay()+0.5) + m.GetDayCount() - 1 + rapid.IntRange(-1, 1).Draw(t, "endDelta")
+			} else {
+				j = gen.NewYearJDN(y) + rapid.IntRange(-3, 1).Draw(t, "ny")
+			}
 		default:
 			j = gen.DayIn(t, y)
 		}
